@@ -74,7 +74,7 @@ def cDebug : Ty := 23
 def cNoTy : Ty := 30
 
 def dynCode (c : Ty) : Ty :=
-  if c == 10 then 5 else if c == 11 then 7 else if c == cTE then cError else c
+  if c == 10 then 5 else if c == 11 then 7 else if c == 12 then 6 else if c == cTE then cError else c
 
 def freshTag (idx k j p : Nat) : Nat := (idx + 1) * 100000 + (k + 1) * 100 + j * 10 + p + 1
 
